@@ -6,6 +6,7 @@ import (
 	"encoding/binary"
 	"fmt"
 	gonet "net"
+	"runtime/debug"
 	"sync"
 	"sync/atomic"
 	"testing"
@@ -623,6 +624,30 @@ func runC17Scenario(c c17ScenarioCase) *vh.Outcome {
 				return o
 			}
 		}
+	case "lib-oversize-then-legal":
+		// the library's sender is handed a message of limit+1 bytes (the receiver refuses that frame), then legal messages:
+		// "every message accepted for sending with a legal type/topic combination is received ... for payload sizes from empty up
+		// to the size limit" - the legal ones that follow must arrive
+		// (a connection that is dropped without being closed is closed by the garbage collector's finalizer sooner or later,
+		// which would let the sender recover by luck: no collection while this scenario runs)
+		defer debug.SetGCPercent(debug.SetGCPercent(-1))
+		fresh := w.remoteFor(w.parties[3], w.parties[1].srv.Addr, 1)
+		tag := fmt.Sprintf("after-lib-oversize-%d", time.Now().UnixNano())
+		fresh.Send(2, netTopic(6), []byte(tag+"-before"), 1)
+		if !waitMarker(w.parties[1].srv, tag+"-before", 15*time.Second) {
+			o.Fail = vh.Failf("C17/lost", "a message over a fresh connection did not arrive")
+			return o
+		}
+		fresh.Send(2, netTopic(6), make([]byte, limit+1), 1)
+		for i := 0; i < 3; i++ {
+			fresh.Send(2, netTopic(6), []byte(fmt.Sprintf("%s-%d", tag, i)), 1)
+		}
+		for i := 0; i < 3; i++ {
+			if !waitMarker(w.parties[1].srv, fmt.Sprintf("%s-%d", tag, i), 40*time.Second) {
+				o.Fail = vh.Failf("C17/lost-after-refused-frame", "party 3 sent party 1 a message of %d bytes (one more than the limit; refused by the receiver) and then 3 legal messages: legal message %d has not arrived after 40s - the refused frame cut the sender off for good", limit+1, i)
+				return o
+			}
+		}
 	case "down-peer-in-broadcast":
 		// ONE Send call addresses a peer that is down together with live peers, with more frames than the down peer's queue
 		// holds (so that the call runs into the enqueue timeout, three times): the live peers still receive every frame, in order
@@ -761,7 +786,7 @@ func TestC17Scenarios(t *testing.T) {
 		}()
 	}
 	p.Enumerate(t, st, func(yield func(c17ScenarioCase) bool) {
-		for _, name := range []string{"types-and-limit", "garbling-peer", "silent-tcp-peer", "burst-order", "late-peer", "concurrent-first-senders"} {
+		for _, name := range []string{"types-and-limit", "garbling-peer", "silent-tcp-peer", "burst-order", "late-peer", "concurrent-first-senders", "lib-oversize-then-legal"} {
 			if !yield(c17ScenarioCase{Name: name}) {
 				return
 			}
